@@ -12,7 +12,6 @@
 package c11
 
 import (
-	"syscall"
 	"bytes"
 	"encoding/json"
 	"fmt"
@@ -24,6 +23,7 @@ import (
 	"sort"
 	"strconv"
 	"strings"
+	"syscall"
 	gotime "time"
 
 	sltime "go.starlark.net/lib/time"
